@@ -82,6 +82,12 @@ Example slice_python_witness :
   model_slice KLazyUnsized [0;1;2;3] (Some 1) None (Some (2^64)) = Ok (3, [1]).
 Proof. vm_compute. repeat split. Qed.
 
+Example laws_witness :
+  model_slice KSeq [5;6;7;8] (Some 1) (Some 3) None = Ok (3, [6;7]) /\ takeZ (3 - 1) (skipZ 1 [5;6;7;8]) = [6;7] /\
+  model_slice KStr [97;98;99] None None (Some (-1)) = Ok (0, [99;98;97]) /\
+  model_index KTuple [5;6;7] (-1) = Some 7 /\ model_index KTuple [5;6;7] (-4) = None /\ model_index KTuple [5;6;7] 3 = None.
+Proof. vm_compute. repeat split. Qed.
+
 Print Assumptions slice_python.
 Print Assumptions slice_total.
 Print Assumptions slice_no_overflow.
